@@ -74,7 +74,7 @@ def build(spec, folder=None, ctor_seed_shift=0, n_jobs=1, verbose=False):
     samplers = [make_sampler(k, bs, (1000 + 7 * i + ctor_seed_shift) if ctor_seed_shift is not None else None)
                 for i, (k, bs) in enumerate(spec["kinds"])]
     npar = spec["nparams"]
-    bounds = [[-0.9] + [0.0] * (npar - 1), [0.9] + [1.0] * (npar - 1)]
+    bounds = spec.get("bounds") or [[-0.9] + [0.0] * (npar - 1), [0.9] + [1.0] * (npar - 1)]
     prec = [0.01] * npar
     real = ar1_model([0.5] + [0.3] * (npar - 1), 24, 12345)
     kw = {}
